@@ -24,21 +24,21 @@ def run(ctx):
     # replayed: every such script with <= 1 call (quick) / <= 2 calls, a seeded sample of the longer ones
     # (one replayed segment = one child process + one RocksDB open, ~0.2-0.7 CPU-s)
     short = [s for s in cover if ncalls(s) <= (1 if q else 2)]
-    scripts = short + cap(ctx, [s for s in cover if ncalls(s) > (1 if q else 2)], 70 if q else 1200)
+    scripts = short + cap(ctx, [s for s in cover if ncalls(s) > (1 if q else 2)], 70 if q else 300)
     # sequence-exhaustive over a one-node / one-relationship alphabet: every operation sequence,
     # every crash boundary (no VIEW: histories are not merged)
     allseq = ctx.tlc_gen("MC_Persist", gen(invs=INVS, maxops=2 if q else 3, maxhist=6 if q else 7, nodeids="{1}", labels="LS1",
                                            view="", emit="ACTION_CONSTRAINT EmitRec"),
                          "allseq", workers=WORKERS, timeout=1800)
-    scripts += cap(ctx, allseq, 30 if q else 800)
+    scripts += cap(ctx, allseq, 30 if q else 200)
     # longer random histories with several crashes
     scripts += ctx.tlc_gen("MC_Persist", gen(invs=INVS + " SimEmit", maxops=8, maxhist=16, labels="LS3", ends="Ends2", view="", constraint=""),
-                           "walks", simulate=(8 if q else 150, 120), workers=4)
+                           "walks", simulate=(8 if q else 40, 120), workers=4)
     scripts = [cut_to_last_recover(s) for s in scripts]
     scripts = [s for s in scripts if len(s) > 1]
     # the same histories with the process killed at an arbitrary (seeded) instant around / inside the call
     inside = [s for s in scripts if any(st.get("op") == "Crash" and st.get("at") != "idle" for st in s)]
-    for s in ctx.rng.sample(inside, min(len(inside), 10 if q else 200)):
+    for s in ctx.rng.sample(inside, min(len(inside), 10 if q else 60)):
         scripts.append([dict(st, at="random", n=ctx.rng.randrange(0, 60000)) if st.get("op") == "Crash" and st.get("at") != "idle" else st
                         for st in s])
     ctx.assume("one tenant; node ids {1,2}, one relationship id; property maps are {} or {k: v}; an update carries the full map "
@@ -50,5 +50,5 @@ def run(ctx):
                "recovery (PersistenceManager::recover on a fresh manager) is the only observation; the crash point is recorded but not "
                "judged: whatever the point, the recovered graph must be the acknowledged one or that plus the in-flight operation")
     sp = ctx.write_scripts("persist-seq", scripts)
-    tr = ctx.run_harness("persist", sp, name="persist-seq", args=["mode=seq", "jobs=%d" % min(JOBS, 6)], timeout=3000, env=harness_env())
+    tr = ctx.run_harness("persist", sp, name="persist-seq", args=["mode=seq", "jobs=%d" % min(JOBS, 6)], timeout=7200, env=harness_env())
     ctx.validate("Persist_Trace", TRACE.format(bind_usage="FALSE"), tr, name="persist-seq", jobs=JOBS, corrupt=corrupt_recover)
